@@ -14,7 +14,7 @@ def parseIdxList (s : String) (sep : String) : Option (List Nat) :=
 
 def e2eEngine : Engine := fun inp obs =>
   match inp with
-  | [repoS, _times, refsS, _args, rootsS, style, _layout] =>
+  | [repoS, _times, refsS, argsS, rootsS, style, _layout] =>
     match parseRepo repoS, parseIdxList rootsS "." with
     | some r, some roots =>
       let nrefs := if refsS == "-" then 0 else (refsS.splitOn ",").length
@@ -23,7 +23,7 @@ def e2eEngine : Engine := fun inp obs =>
       | ["dup"] => .ok "trivial"
       | "setup-failed" :: _ => .bad "could not build the repository"
       | "fail" :: "-9" :: _ => .viol "C05,C10" "git-sizer did not finish within 20 s on a repository of a few dozen objects"
-      | "fail" :: code :: _ => .viol "C01,C10,C19" s!"git-sizer failed (exit {code}) or wrote an unparsable report on a valid repository"
+      | "fail" :: code :: _ => .viol (if argsS == "-" then "C01,C10,C19" else "C01,C10,C19,C06") s!"git-sizer failed (exit {code}) or wrote an unparsable report on a valid repository"
       | ["ok", numS, witS, _grpS, revS, stderrEmpty] =>
         -- contract of git: rev-list lists exactly the closure, children before parents
         let listing : Option (List Nat) := if roots.isEmpty then some [] else
@@ -44,7 +44,13 @@ def e2eEngine : Engine := fun inp obs =>
         -- then the model's scan of git's own listing is proved to give the clamped truth
         let L := listing.getD []
         let thm := Scan.scanHypothesesb r L
+        -- the executable aggregator model keeps listeners in append-only lists and records in chains of
+        -- function updates: quadratic in the fan-out. Above 20 000 entries in one tree only the specification
+        -- (the census over the reachable set) judges the report; the model is not run
+        let huge := r.any fun o => match o with | .tree _ es => es.length > 20000 | _ => false
+        let thm := thm && !huge
         let modelNums : Option (List Nat) :=
+          if huge then some nums else
           match Scan.scan r L (List.replicate nrefs []) with
           | .ok h => some (histNumbers h)
           | _ => none
@@ -52,7 +58,9 @@ def e2eEngine : Engine := fun inp obs =>
           .bad s!"the whole-scan theorem's closed form and the judge's census disagree: model {modelNums}, census {spec}" else
         let bad := (List.range spec.length).filter fun i => nums.getD i 0 != spec.getD i 0
         if let some i := bad.head? then
-          .viol (unionProps (bad.map (fieldPropW (style != "none")))) (", ".intercalate (bad.map fun i => s!"{fieldNames.getD i "?"} = {nums.getD i 0}, specification over the reachable set = {spec.getD i 0}"))
+          -- with selection options on the command line, a census over another set than the specified one is
+          -- (also) a wrong selection of references
+          .viol (unionProps (bad.map (fieldPropW (style != "none")) ++ (if argsS == "-" then [] else ["C06"]))) (", ".intercalate (bad.map fun i => s!"{fieldNames.getD i "?"} = {nums.getD i 0}, specification over the reachable set = {spec.getD i 0}"))
         else
         let tn := expandTable (PN r) r.length
         let tt := tagDepthTable r
